@@ -552,6 +552,23 @@ func (w *World) buildReplay(dir, id string, r *Result, why string) *replayFile {
 	}
 	for _, p := range params {
 		v := c.paramVals[p.Name()]
+		if nt, ok := p.Type().(*types.Named); ok && nt.Obj().Pkg() != nil && nt.Obj().Pkg().Path() == "io" && nt.Obj().Name() == "Reader" {
+			// an io.Reader argument: a bytes.Reader over the bytes the model's
+			// stream still has to deliver
+			data, err := w.modelStream(o, p.Name())
+			if err != nil {
+				rf.ReplayNote = "stream of " + p.Name() + " not extractable: " + err.Error()
+				return rf
+			}
+			var parts []string
+			for _, b := range data {
+				parts = append(parts, fmt.Sprint(b))
+			}
+			w.replayImports["bytes"] = "bytes"
+			argExprs = append(argExprs, "bytes.NewReader([]byte{"+strings.Join(parts, ", ")+"})")
+			rf.Inputs["stream "+p.Name()] = parts
+			continue
+		}
 		g, js, err := w.modelValue(o, v.T, p.Type(), entry)
 		if err != nil || g == "" {
 			rf.ReplayNote = fmt.Sprintf("input %s not replayable: %v", p.Name(), err)
